@@ -144,7 +144,6 @@ func coqObsEntries(es []entryObs) string {
 	return coqList(items)
 }
 
-
 // ---- more known-finding class predicates ----
 
 // groupLabelShadowedAfterRules: a group whose `labels:` block comes after `rules:` and shares a label name with a rule.
@@ -228,10 +227,10 @@ type c02Fail struct {
 }
 
 type c02Child struct {
-	Term     string    `json:"term"`
-	Fails    []c02Fail `json:"fails"`
-	Hist     []string  `json:"hist"`
-	Nontriv  bool      `json:"nontrivial"`
+	Term    string    `json:"term"`
+	Fails   []c02Fail `json:"fails"`
+	Hist    []string  `json:"hist"`
+	Nontriv bool      `json:"nontrivial"`
 }
 
 var c02Variants = func() (vs []c02Variant) {
